@@ -3,6 +3,8 @@ package driver
 import (
 	"bytes"
 	"fmt"
+	"strings"
+	"time"
 
 	"github.com/cbehopkins/gkvlite"
 
@@ -18,6 +20,16 @@ func (e *Env) begin(format string, a ...interface{}) bool {
 	e.CurOp = fmt.Sprintf(format, a...)
 	if len(e.Trace) < 400 {
 		e.Trace = append(e.Trace, e.CurOp)
+	}
+	if e.RC != nil {
+		k := e.CurOp
+		if i := strings.IndexByte(k, '('); i > 0 {
+			k = k[:i]
+		}
+		if strings.Contains(e.CurOp, "snap=") && !strings.Contains(e.CurOp, "snap=-1") || strings.HasPrefix(e.CurOp, "Snap") {
+			k += "@snapshot"
+		}
+		e.RC.SetTag(k)
 	}
 	return true
 }
@@ -110,6 +122,7 @@ func (e *Env) SetItem(name string, key, val []byte, prio int32, useSet bool) {
 		}
 	}
 	m.Set(key, val, prio)
+	e.markStale(name)
 }
 
 func (e *Env) Delete(name string, key []byte) {
@@ -138,6 +151,7 @@ func (e *Env) Delete(name string, key []byte) {
 	want := m.Delete(key)
 	if want {
 		e.Stats["op.Delete.present"]++
+		e.markStale(name)
 	}
 	if was != want {
 		e.Failf("delete/wrong-result", "Delete(%s) reported %v, model says present=%v", kvString(key), was, want)
@@ -162,6 +176,9 @@ func (e *Env) handleFor(snap int, name string) (*gkvlite.Store, *gkvlite.Collect
 	if c == nil {
 		e.Failf("handle/nil/snapshot", "snapshot has no handle for collection %q", name)
 		return nil, nil, nil, ""
+	}
+	if e.RC != nil && e.Stale[c] {
+		e.RC.SetTag("stale-version-read")
 	}
 	return sn.S, c, m, "snap:"
 }
@@ -470,6 +487,10 @@ func (e *Env) rawVisit(c *gkvlite.Collection, kind VisitKind, target []byte, wit
 			}
 			it.Close()
 			err = it.Err()
+			// the producer goroutine must exit (and release its version) once the consumer is done
+			if st := WaitIterProducers(20 * time.Second); st != "" {
+				e.Failf("C18/iterator-producer-still-alive", "the iterator's producer goroutine is still alive after Close():\n%s", st)
+			}
 		}
 		e.tag("")
 	})
@@ -937,4 +958,174 @@ func (e *Env) Close() {
 		e.guard("Close", func() { s.Close() })
 	}
 	e.closedStores = nil
+}
+
+// Pinned is a visit suspended inside its callback: a reader that keeps a
+// version pinned while other operations run.
+type Pinned struct {
+	Name    string
+	Desc    bool
+	WithVal bool
+	exp     []model.KV
+	got     []model.KV
+	resume  chan struct{}
+	paused  chan struct{}
+	done    chan error
+	panicV  interface{}
+	Done    bool
+	Stale   bool // the collection was mutated while this visit was suspended
+}
+
+// PinVisit starts a full visit of a collection in a separate goroutine and
+// suspends it inside the callback of the pauseAt-th item (0-based).
+func (e *Env) PinVisit(name string, desc, withValue bool, pauseAt int) {
+	if !e.begin("PinVisit(%q,desc=%v,%v,pauseAt=%d)", name, desc, withValue, pauseAt) {
+		return
+	}
+	c, m := e.coll(name)
+	if c == nil {
+		return
+	}
+	e.Stats["op.PinVisit"]++
+	p := &Pinned{Name: name, Desc: desc, WithVal: withValue, resume: make(chan struct{}), paused: make(chan struct{}, 1), done: make(chan error, 1)}
+	if desc {
+		p.exp = m.Descend(aboveAll(m))
+	} else {
+		p.exp = m.Ascend(belowAll(m))
+	}
+	n := 0
+	visitor := func(i *gkvlite.Item) bool {
+		kv := model.KV{Key: append([]byte{}, i.Key...), Prio: i.Priority}
+		if withValue && i.Val != nil {
+			kv.Val = append([]byte{}, i.Val...)
+		}
+		p.got = append(p.got, kv)
+		if n == pauseAt {
+			p.paused <- struct{}{}
+			<-p.resume
+		}
+		n++
+		return true
+	}
+	if withValue {
+		e.tag("VisitAsc(kv)")
+	} else {
+		e.tag("VisitAsc(k)")
+	}
+	go func() {
+		defer func() {
+			if r := recover(); r != nil {
+				p.panicV = r
+				p.done <- fmt.Errorf("panic: %v", r)
+			}
+		}()
+		var err error
+		if desc {
+			err = c.VisitItemsDescend(aboveAll(m), withValue, visitor)
+		} else {
+			err = c.VisitItemsAscend(belowAll(m), withValue, visitor)
+		}
+		p.done <- err
+	}()
+	select {
+	case <-p.paused:
+		e.Pins = append(e.Pins, p)
+	case err := <-p.done:
+		p.Done = true
+		e.finishPin(p, err)
+	}
+	e.tag("")
+}
+
+func (e *Env) finishPin(p *Pinned, err error) {
+	if p.panicV != nil {
+		e.Failf("pinned-visit/panic", "a visit that was suspended in its callback while other operations ran panicked on resumption: %v", p.panicV)
+		return
+	}
+	if err != nil {
+		e.Failf("pinned-visit/error", "a visit suspended in its callback while other operations ran failed: %v", err)
+		return
+	}
+	if d := diffKVs(p.got, p.exp, p.WithVal); d != "" {
+		e.Failf("pinned-visit/wrong-sequence", "a visit that was suspended in its callback while other operations ran did not deliver the version it started on: %s", d)
+	}
+}
+
+// ResumeVisit lets the i-th pinned visit run to completion.
+func (e *Env) ResumeVisit(i int) {
+	if i >= len(e.Pins) || e.Pins[i].Done {
+		return
+	}
+	if !e.begin("ResumeVisit(%d)", i) {
+		return
+	}
+	p := e.Pins[i]
+	p.Done = true
+	e.Stats["op.ResumeVisit"]++
+	if e.RC != nil && p.Stale {
+		e.RC.SetTag("stale-version-read")
+	}
+	if p.WithVal {
+		e.tag("VisitAsc(kv)")
+	} else {
+		e.tag("VisitAsc(k)")
+	}
+	close(p.resume)
+	err := <-p.done
+	e.tag("")
+	e.finishPin(p, err)
+}
+
+// ResumeAll finishes all pinned visits (end of case).
+func (e *Env) ResumeAll() {
+	for i := range e.Pins {
+		e.ResumeVisit(i)
+	}
+}
+
+// OpenPins counts suspended visits.
+func (e *Env) OpenPins() int {
+	n := 0
+	for _, p := range e.Pins {
+		if !p.Done {
+			n++
+		}
+	}
+	return n
+}
+
+// CloseOriginalOnly closes the writable store but keeps its snapshots open
+// (they must remain fully readable).
+func (e *Env) CloseOriginalOnly() {
+	if e.S == nil {
+		return
+	}
+	e.Step++
+	e.ResumeAll()
+	s := e.S
+	e.guard("Close", func() { s.Close() })
+	e.S = nil
+	e.H = map[string]*gkvlite.Collection{}
+	e.M.Live = model.NewState()
+	e.Stats["op.CloseOriginal"]++
+}
+
+// markStale records that every other holder of collection name's previous
+// version (open snapshots, suspended visits) now reads a superseded version.
+func (e *Env) markStale(name string) {
+	if e.Stale == nil {
+		e.Stale = map[*gkvlite.Collection]bool{}
+	}
+	for _, sn := range e.Snaps {
+		if !sn.Closed {
+			if c := sn.H[name]; c != nil {
+				e.Stale[c] = true
+			}
+		}
+	}
+	for _, p := range e.Pins {
+		if !p.Done && p.Name == name {
+			p.Stale = true
+		}
+	}
 }
